@@ -324,6 +324,23 @@ func checkSameSpecifierProvenance(prog *core.Program, r4 *core.RuleRun, fn *ssa.
 				}
 				okIdx = z && inc
 			}
+			// range loop: index = k+1 with k = phi(-1, index)
+			if bo, ok := i.(*ssa.BinOp); ok && bo.Op == token.ADD {
+				if c1, ok := ssaConstInt(bo.Y); ok && c1 == 1 {
+					if phi, ok := bo.X.(*ssa.Phi); ok {
+						neg, back := false, false
+						for _, e := range phi.Edges {
+							if cst, ok := ssaConstInt(e); ok && cst == -1 {
+								neg = true
+							}
+							if e == ssa.Value(bo) {
+								back = true
+							}
+						}
+						okIdx = neg && back && len(phi.Edges) == 2
+					}
+				}
+			}
 			r4.Check(okIdx, key+":order:"+strings.Join(w, "+"), c.Pos(), "fields are decoded in template order (index 0,1,2,...)", "template fields are not visited in ascending order from 0")
 		}
 		// the octets interpreted are the octets read with this specifier's length
